@@ -26,3 +26,8 @@ package x
 //@   trusted
 //@   pure
 //@   ensures result != nil && fresh(result) && result.Size == optsize(modifiers) && result.Token == opttoken(modifiers) && result.Size >= 0
+
+//@ func GetMaxDepthFromQuery
+//@   props C08 C13
+//@   modifies nothing
+//@   requires q != nil
